@@ -307,7 +307,7 @@ func (rt *runtime) cmplEvaluateNodeSwitchStatement(node *nodeSwitchStatement) Va
 	labels := append(rt.labels, "") //nolint:gocritic
 	rt.labels = nil
 
-	discriminantResult := rt.cmplEvaluateNodeExpression(node.discriminant)
+	discriminantResult := rt.cmplEvaluateNodeExpression(node.discriminant).resolve()
 	target := node.defaultIdx
 
 	for index, clause := range node.body {
